@@ -144,7 +144,7 @@ def run_server(kconfig, sdkconfig, sdkconfig_rename, default_version=MAX_PROTOCO
             break
         try:
             req = json.loads(line)
-        except JSONDecodeError as e:
+        except (ValueError, RecursionError) as e:  # JSONDecodeError, a number or a nesting depth Python refuses
             response = {
                 "version": default_version,
                 "error": [f"JSON formatting error: {e}"],
